@@ -39,21 +39,20 @@ Theorem C01_loopctl_rejected_outside : forall lf bf,
   gen true lf bf (SBlock [SBreak]) = SyntaxErr.
 Proof. intros lf bf. repeat split; reflexivity. Qed.
 
-(* a keyword the generator passes itself is refused when given explicitly exactly where the
-   generator passes it: caller= on the call of a call block, _loop_vars= directly in a loop body
-   (also under if / autoescape), _block_vars= directly in a block; elsewhere (top level, inside a
-   with / macro nested in the loop, in the loop's else) the same keyword is an ordinary one
-   (repaired by the fix: commit 9fa25ee; before it the emitted call repeated the keyword) *)
+(* caller= is refused on the call of a call block (the generator passes it there) and is an ordinary
+   keyword elsewhere; _loop_vars= / _block_vars= are refused as explicit keywords of every call; the
+   generator itself passes _loop_vars exactly in loop frames (loop body, also under if; not under with /
+   macro / the loop's else) and _block_vars exactly in block frames (repaired by the fix: commits
+   9fa25ee and 55e3ad6; before them the emitted call repeated the keyword or silently dropped it) *)
 Theorem C01_engine_keywords :
   gen false false false (SCallBlock [] [CALLER] []) = SyntaxErr /\
-  gen false false false (SFor false [SIf [SSame [SCallKw [LOOPVARS]]] []] []) = SyntaxErr /\
-  gen false false false (SBlock [SCallKw [BLOCKVARS]]) = SyntaxErr /\
-  gen false false false (SCallKw [CALLER; LOOPVARS; BLOCKVARS]) = Ok [PCall [CALLER; LOOPVARS; BLOCKVARS]] /\
-  gen false false false (SFor false [SInline true [SCallKw [LOOPVARS]]; SCallKw [BLOCKVARS]] [SCallKw [LOOPVARS]])
-    = Ok [PFor [PCall [LOOPVARS]; PCall [BLOCKVARS; LOOPVARS]]; PIf [PCall [LOOPVARS]]] /\
-  gen false false false (SBlock [SFor false [SCallKw [BLOCKVARS]] []; SCallBlock [] [] []])
-    = Ok [PDef [] [PFor [PCall [BLOCKVARS; LOOPVARS]]; PIf []; PDef [] []; PCall [CALLER; BLOCKVARS]]; PSimple].
-Proof. repeat split; vm_compute; reflexivity. Qed.
+  (forall il lf bf, gen il lf bf (SCallKw [LOOPVARS]) = SyntaxErr /\ gen il lf bf (SCallKw [BLOCKVARS]) = SyntaxErr) /\
+  gen false false false (SCallKw [CALLER]) = Ok [PCall [CALLER]] /\
+  gen false false false (SFor false [SInline true [SCallKw []]; SIf [SSame [SCallKw [10]]] []] [SCallKw []])
+    = Ok [PFor [PCall []; PIf [PCall [10; LOOPVARS]]; PIf []]; PIf [PCall []]] /\
+  gen false false false (SBlock [SFor false [SCallKw []] []; SCallBlock [] [] []])
+    = Ok [PDef [] [PFor [PCall [LOOPVARS]]; PIf []; PDef [] []; PCall [CALLER; BLOCKVARS]]; PSimple].
+Proof. repeat split; try (destruct lf, bf); vm_compute; reflexivity. Qed.
 
 (* non-vacuity: a nested program with loop control in every accepted position *)
 Example C01_example :
